@@ -1836,7 +1836,9 @@ PSBT Pubs:\n{self.named_pubs}
         script_pubkey = self.tx_out.script_pubkey
         # if the ScriptPubKey is p2sh, check for a RedeemScript
         if script_pubkey.is_p2sh():
-            self.redeem_script = redeem_lookup.get(script_pubkey.commands[1])
+            self.redeem_script = self.redeem_script or redeem_lookup.get(
+                script_pubkey.commands[1]
+            )
             # if no RedeemScript exists, we can't update, so return
             if not self.redeem_script:
                 return
@@ -1863,7 +1865,7 @@ PSBT Pubs:\n{self.named_pubs}
             else:
                 s256 = script_pubkey.commands[1]
             # look for the WitnessScript using the sha256
-            witness_script = witness_lookup.get(s256)
+            witness_script = self.witness_script or witness_lookup.get(s256)
             if witness_script:
                 # update the WitnessScript
                 self.witness_script = witness_script
